@@ -18,7 +18,7 @@ CHECKS = {
                 text="Held on every generated (content, configuration, segmentation, read sequence) case executed; sampled, not exhaustive. Right level because the property quantifies over unbounded inputs/configurations and the oracle (byte equality with the written content, plus an independent decoder) is exact for each execution.",
                 note=TRUST + " Inputs <= 2 MiB."),
     "C02": dict(level="exploration",
-                technique="runtime monitoring of the real reader (library + unzck, ASan/UBSan) on mutated and re-sealed files; offline oracle over the read event log: success implies equality with an independent reference decoder; reads issued after validation calls as well",
+                technique="runtime monitoring of the real reader (library + unzck, ASan/UBSan) on mutated and re-sealed files; offline oracle over the read event log: success implies equality with an independent reference decoder; reads issued after validation calls as well; the same alterations under the detached-header identifier; truncation at every chunk boundary",
                 text=EXPL + " One-directional oracle (success => equals reference content).",
                 note=TRUST + " Corruption patterns limited to the mutation grammar; hash collisions out of scope."),
     "C03": dict(level="exploration",
@@ -26,19 +26,19 @@ CHECKS = {
                 text=EXPL + " A clean sanitizer run is not memory safety: red-zone tools miss far and intra-object overflows.",
                 note="Counts ASan/UBSan reports, fatal signals and CPU-bound overruns (DESIGN 3.1, 3.3); nonnull-attribute and leaks not counted."),
     "C04": dict(level="exploration",
-                technique="offline checker over the recorded request/response/valid-flag history of the documented update procedure run in-process against a server holding B (and the real zckdl against a loopback range server in the thorough tier): final bytes == B, requested bytes == exactly the stored extents of the chunks neither valid in the target nor present in A",
+                technique="offline checker over the recorded request/response/valid-flag history of the documented update procedure run in-process against a server holding B (and the real zckdl against a loopback range server in the thorough tier): final bytes == B, requested bytes == exactly the stored extents of the chunks neither valid in the target nor present in A; requests with thousands of separate ranges",
                 text=EXPL,
                 note=TRUST + " Expected fetch set computed from A, B and the initial target by the reference parser only."),
     "C05": dict(level="exploration",
-                technique="runtime monitoring of the download callbacks under every 1-/2-cut fragmentation of small responses (exhaustive) and sampled fragmentations of larger ones; agreement across fragmentations, model image computed in Python, write(2) interposer log for confinement",
+                technique="runtime monitoring of the download callbacks under every 1-/2-cut fragmentation of small responses (exhaustive) and sampled fragmentations of larger ones; agreement across fragmentations, model image computed in Python, write(2) interposer log for confinement; a third of the runs with application callbacks chained behind the library's (zck_dl_set_write_cb)",
                 text=EXPL + " The 1- and 2-cut fragmentation spaces of the small responses are enumerated completely.",
                 note=TRUST + " Response shapes limited to the grammar in DESIGN 5 C05."),
     "C06": dict(level="exploration",
-                technique="exhaustive single-byte mutation of the header region (every position x every other value) of sample files through the real open paths (zck_init_read; lead+header step by step; pinned to the genuine checksum) under ASan; patched images incl. non-minimal re-encodings of every integer; independent header checksum recomputation with hashlib",
+                technique="exhaustive single-byte mutation of the header region (every position x every other value) of sample files through the real open paths (zck_init_read; lead+header step by step; pinned to the genuine checksum before / after the lead; every failing step repeated after zck_clear_error) under ASan; patched images incl. non-minimal re-encodings of every integer; independent header checksum recomputation with hashlib",
                 text="Every single-byte substitution of every header byte of each sample file is executed (exhaustive over that finite space); insertions/deletions and digest transplants sampled. Right level: the property is a statement about each header byte.",
                 note="Independent checksum from Python hashlib; sample files cover the 4 lead checksum types, flags, dict/no dict, detached headers."),
     "C07": dict(level="exploration",
-                technique="runtime enumeration of pinned-digest strings (every position x all 256 byte values), lengths, type/length pins and pin-vs-actual grids through the real option setters and lead readers; oracle = Python int(x,16) / byte equality; pins whose differences cancel under folding, refused re-pins, images through pipe / FIFO / socket / behind another image",
+                technique="runtime enumeration of pinned-digest strings (every position x all 256 byte values), lengths, type/length pins and pin-vs-actual grids through the real option setters and lead readers; oracle = Python int(x,16) / byte equality; pins whose differences cancel under folding, refused re-pins, pins changed between zck_validate_lead and the open, images through pipe / FIFO / socket / behind another image",
                 text=EXPL + " The per-position byte enumeration of the digest string is exhaustive.",
                 note="Oracle: Python string/hex semantics; reference parse of the file's lead."),
     "C08": dict(level="exploration",
@@ -46,7 +46,7 @@ CHECKS = {
                 text=EXPL,
                 note=TRUST),
     "C09": dict(level="exploration",
-                technique="runtime monitoring of zck_find_valid_chunks / zck_validate_checksums / zck_validate_data_checksum on generated on-disk states: flags and verdicts vs hashlib recomputation, interposer log proves no write, read-after-validation equals read-without; sparse files, empty chunks, validation through a pipe; tool verdicts (zck_read_header -f with and without -c, unzck -c)",
+                technique="runtime monitoring of zck_find_valid_chunks / zck_validate_checksums / zck_validate_data_checksum on generated on-disk states: flags and verdicts vs hashlib recomputation, interposer log proves no write, read-after-validation equals read-without; sparse files, empty and repeated chunks, another writer's header layouts, validation through a pipe; tool verdicts (zck_read_header -f with and without -c, unzck -c)",
                 text=EXPL + " All 4^n chunk-state combinations are enumerated for the smallest files.",
                 note=TRUST),
     "C10": dict(level="exploration",
@@ -54,35 +54,35 @@ CHECKS = {
                 text=EXPL + " All validity vectors of the small indexes x all limits are enumerated completely.",
                 note=TRUST),
     "C11": dict(level="fault_enumeration",
-                technique="kill-point enumeration: the update procedure is killed at every write(2) to the target (several byte offsets inside each write) via a link-time interposer, then resumed in a fresh process; offline checker over the resume's request log and the snapshot taken at the kill; restarts with a different local source; the real zckdl killed and resumed; a failing uninterrupted update from a partial target is a violation",
+                technique="kill-point enumeration: the update procedure is killed at every write(2) to the target (several byte offsets inside each write) via a link-time interposer, then resumed in a fresh process; offline checker over the resume's request log and the snapshot taken at the kill; restarts with a different local source; new versions listing the same chunk several times; the real zckdl killed and resumed; a failing uninterrupted update from a partial target is a violation",
                 text="Every target write of each scenario is a kill point and each is executed with several partial-transfer sizes (exhaustive per scenario); scenarios sampled. Right level: the property quantifies over interruption points of a finite execution.",
                 note=TRUST + " Interruption modelled at write(2) granularity; no power-loss reordering."),
     "C12": dict(level="fault_enumeration",
-                technique="fault enumeration: every read/write/lseek on every descriptor class in each scenario is failed (EIO/ENOSPC/EINTR), shortened or zeroed via link-time and LD_PRELOAD interposers; oracle: success reported => the bytes that reached the descriptor are complete and correct; kernel-side copy calls (sendfile family) counted and faulted as writes; callers that clear the error and retry; double faults",
+                technique="fault enumeration: every read/write/lseek on every descriptor class in each scenario is failed (EIO/ENOSPC/EINTR), shortened or zeroed via link-time and LD_PRELOAD interposers; oracle: success reported => the bytes that reached the descriptor are complete and correct; kernel-side copy calls (sendfile family) counted and faulted as writes; callers that clear the error and retry (writer and chunk copy); double faults",
                 text="For each scenario a fault-free run counts the calls per (syscall, descriptor class); every k-th call is then re-run under each fault kind (exhaustive per scenario). Right level: the property quantifies over failure points of a finite execution.",
                 note=TRUST + " (INJECTED) markers in the log prove each fault fired."),
     "C13": dict(level="exploration",
-                technique="runtime differential monitoring: dump of every public getter + chunk iteration and zck_read_header output vs independent reference parse of reference-writer headers (boundary grid, re-sealed); optional-element overruns/rewinds, unused header bytes, image behind another image in the same descriptor",
+                technique="runtime differential monitoring: dump of every public getter + chunk iteration and zck_read_header output and lookups by number in non-ascending orders vs independent reference parse of reference-writer headers (boundary grid, re-sealed); optional-element overruns/rewinds, unused header bytes, image behind another image in the same descriptor",
                 text=EXPL,
                 note=TRUST),
     "C14": dict(level="exploration",
-                technique="runtime monitoring of zck_get_chunk_data / zck_get_chunk_comp_data request sequences (all sequences up to length 2/3 for small files) against reference slices; history independence via position-independent expectation; requests interleaved with the application's own use of the descriptor; chunks beyond 10 MiB; unzck --dict on files and detached headers",
+                technique="runtime monitoring of zck_get_chunk_data / zck_get_chunk_comp_data request sequences (all sequences up to length 2/3 for small files) against reference slices, with buffers exactly / larger / smaller than the chunk; history independence via position-independent expectation; requests interleaved with the application's own use of the descriptor; chunks beyond 10 MiB; unzck --dict on files and detached headers",
                 text=EXPL + " All request sequences up to the stated length are enumerated for the smallest files.",
                 note=TRUST),
     "C15": dict(level="exploration",
-                technique="runtime monitoring of zck_read on zstd files with single-bit body corruption: every successfully returned byte attributed to its chunk via the reference index; a byte from a chunk whose stored bytes mismatch its checksum is a violation; chunks of several MiB (stored size > 4 MiB) and runs of identical chunks",
+                technique="runtime monitoring of zck_read on zstd files with single-bit body corruption: every successfully returned byte attributed to its chunk via the reference index; a byte from a chunk whose stored bytes mismatch its checksum is a violation; the corrupted chunk also requested by number (zck_get_chunk_data); chunks of several MiB (stored size > 4 MiB) and runs of identical chunks",
                 text=EXPL,
                 note=TRUST),
     "C16": dict(level="exploration",
-                technique="runtime differential monitoring of the writer: byte equality of outputs across write-call segmentations and fresh processes; chunk tables of edited inputs compared (prefix/suffix locality); automatic chunk sizes vs effective bounds read from the writer context; workloads include contents with crafted rolling-hash hits (built from the tree's buzhash table) and the zck tool fed through a regular file, a FIFO with controlled read() sizes and shifted contents",
+                technique="runtime differential monitoring of the writer: byte equality of outputs across write-call segmentations and fresh processes; chunk tables of edited inputs compared (prefix/suffix locality); automatic chunk sizes vs effective bounds read from the writer context (incl. minimum == maximum); a second archive written in the same thread between the calls; workloads include contents with crafted rolling-hash hits (built from the tree's buzhash table) and the zck tool fed through a regular file, a FIFO with controlled read() sizes and shifted contents",
                 text=EXPL,
                 note=TRUST),
     "C17": dict(level="exploration",
-                technique="sanitizer monitoring (ASan+UBSan, signals, CPU bound) of the download callbacks fed structured hostile header lines / bodies and libFuzzer-generated responses; write(2) interposer log for confinement; valid flags vs hashlib; runs at DEBUG log level and with the target on descriptor 2; retry sequences; part headers beyond 1 MiB",
+                technique="sanitizer monitoring (ASan+UBSan, signals, CPU bound) of the download callbacks fed structured hostile header lines / bodies and libFuzzer-generated responses; write(2) interposer log for confinement; valid flags vs hashlib; runs at DEBUG log level and with the target on descriptor 2; retry sequences; part headers beyond 1 MiB; chained application callbacks; a second transfer in the same process freed between header lines",
                 text=EXPL,
                 note="Counts ASan/UBSan reports, fatal signals, CPU-bound overruns; confinement judged from the interposer's write log."),
     "C18": dict(level="exploration",
-                technique="differential execution of the two real builds (OpenSSL and bundled SHA) with Python hashlib as third party: digests over all lengths 0..520 x segmentations, random long messages, and cross-build write/read of files; messages of 2^29+k bytes and single update calls above 256 MiB",
+                technique="differential execution of the two real builds (OpenSSL and bundled SHA) with Python hashlib as third party: digests over all lengths 0..520 x segmentations, random long messages, and cross-build write/read of files; messages of 2^29+k bytes and single update calls above 256 MiB; a third of the runs with a dirty OpenSSL error queue / non-zero errno left by the application",
                 text=EXPL + " Message lengths 0..520 x 4 types are enumerated completely for whole/1-byte/every-split segmentations.",
                 note="Third party: Python hashlib."),
     "C19": dict(level="exploration",
